@@ -132,6 +132,8 @@ def frame_violations(path, allow_attrs=('execution_time',)):
             bad.append(f'write to gv.{e[1]} at {e[2]}')
         if e[0] == 'module_state_write':
             bad.append(f'write to module-level state {e[1][1]} (module {e[1][0]}) at {e[2]}: results may depend on earlier calls')
+        if e[0] == 'memo_mutable_result':
+            bad.append(f'memoised function {e[1]} returns a mutable object (at {e[2]}): all callers with equal arguments share it, so results depend on what earlier callers did with theirs')
         if e[0] == 'memo_state_read':
             bad.append(f'memoised function {e[1][0]} reads {e[1][1]} at {e[2]}, which is not part of its cache key: results depend on earlier calls')
     return bad
